@@ -43,7 +43,8 @@ package redis
 //@ func (*scanRequest).genCursor
 //@   mode bv
 //@   prop C18
-//@   modifies nothing
+//@   modifies scanhookidx, scanhookcur
+//@   ghostdef scanhookidx == nodeIdx && scanhookcur == nodeCursor
 //@   ensures @join result == curjoin(nodeIdx, nodeCursor)
 
 //@ func (*upstream).Hosts
@@ -72,6 +73,13 @@ package redis
 
 //@ func (*scanRequest).Convert$2
 //@   prop C18 C11
+//@   requires req != nil && req.resp != nil && deref(r) != nil
+//@   let sr = deref(r)
+//@   let resp = req.resp
+//@   let s0 = str(req.resp.Array[0].Text)
+//@   ensures @not-array-untouched (resp.Type != 42 || len(resp.Array) == 0) ==> sr.nodeIdx == old(sr.nodeIdx)
+//@   ensures @advance-iff-node-finished resp.Type == 42 && len(resp.Array) > 0 && wellformed(s0) && len(s0) < 19 ==> int(sr.nodeIdx) == (int(old(sr.nodeIdx)) + ite(sdec(s0) == 0, 1, 0)) % 65536
+//@   ensures @keeps-node-cursor resp.Type == 42 && len(resp.Array) > 0 && wellformed(s0) && len(s0) < 19 ==> scanhookcur == uint64(sdec(s0)) && scanhookidx == sr.nodeIdx
 
 // ---- requests (shared by C01 C02 C03 C14 C18 C20) ---------------------------
 
